@@ -341,6 +341,148 @@ theorem unknown_encoding_in_slice (c : Cfg) (good : List CS) (hg : ∀ x ∈ goo
       (sec 3 ++ le c ((good.length + (k + 1) : Nat) : Int) ++ (good.flatMap (Spec.cs c) ++ (sec 4 ++ [e, vt]))) .unknownEncoding :=
   ts_fails_with_cs c good hg k _ _ (cs_fails_with_va c _ _ (unknown_encoding_id c e vt h1 h2 h3).1) hcap hmax
 
+/-! ### the global form: corruption anywhere in the slices of an otherwise intact file -/
+
+/-- A file with an intact header, intact table metadata (any physical layout) and any number of
+    intact slices, followed by bytes on which `sbdf_ts_read` fails with `s`: the caller's loop
+    `fh_read; tm_read; ts_read*` succeeds on every call before, returns the metadata and exactly
+    the intact slices, and the call that meets the corruption is the first non-OK one, with `s`. -/
+theorem file_then_failure (c : Cfg) (p : PhysTM) (cols : List Md) (slices : List (List CS))
+    (hp : p.Ok c cols) (hn : ∀ x ∈ slices, x.length = p.cols.length) (hf : ∀ x ∈ slices, TSFits c x)
+    (bad : Bytes) (s : Status) (hbad : FailsWith (readTS c p.cols.length none) bad s)
+    (rest : Bytes) (fuel : Nat) (hfuel : slices.length < fuel) :
+    readFileF c none fuel (header ++ Spec.tm c p ++ (slices.flatMap (Spec.ts c) ++ bad) ++ rest).toArray =
+      ⟨.ok (1, 0), some (.ok (C04.logicalTM p cols)), slices.map (fun x => ⟨maskFrom none 0 x⟩),
+       some (.failed (.st s))⟩ := by
+  unfold readFileF
+  have h1 := reads_fhRead [] (Spec.tm c p ++ (slices.flatMap (Spec.ts c) ++ bad) ++ rest)
+  simp only [List.nil_append, List.length_nil, Nat.zero_add, List.append_assoc] at h1 ⊢
+  rw [h1]
+  simp only
+  have h2 := reads_tm c p cols hp header ((slices.flatMap (Spec.ts c) ++ bad) ++ rest)
+  simp only [List.append_assoc] at h2
+  rw [h2]
+  simp only
+  have hcl' : (List.map Md.freeze cols).length = p.cols.length := by simp [hp.clen]
+  have h3 := slices_then_failure c none p.cols.length slices hn hf bad s hbad (header ++ Spec.tm c p) rest fuel hfuel
+  simp only [List.append_assoc, List.length_append] at h3
+  simp only [C04.logicalTM, hcl']
+  rw [h3]
+
+/-- the same for the table-metadata section: whatever `sbdf_tm_read` reports on it is the first
+    non-OK status, and no slice is read -/
+theorem tm_failure_in_file (c : Cfg) (sub : Option (List Bool)) (bad : Bytes) (s : Status)
+    (hbad : FailsWith (readTM c) bad s) (rest : Bytes) (fuel : Nat) :
+    readFileF c sub fuel (header ++ bad ++ rest).toArray = ⟨.ok (1, 0), some (.error (.st s)), [], none⟩ := by
+  unfold readFileF
+  have h1 := reads_fhRead [] (bad ++ rest)
+  simp only [List.nil_append, List.length_nil, Nat.zero_add, List.append_assoc] at h1 ⊢
+  rw [h1]
+  simp only
+  have h2 := hbad header rest
+  simp only [List.append_assoc] at h2
+  rw [h2]
+
+/-- e.g. a negative entry count right behind the section marker -/
+theorem negative_entry_count_in_file (c : Cfg) (sub : Option (List Bool)) (count : Int) (h32 : isInt32 count)
+    (h : count < 0) (rest : Bytes) (fuel : Nat) :
+    readFileF c sub fuel (header ++ (sec 2 ++ le c count) ++ rest).toArray =
+      ⟨.ok (1, 0), some (.error (.st .invalidSize)), [], none⟩ :=
+  tm_failure_in_file c sub _ _ (negative_entry_count c count h32 h) rest fuel
+
+/-- ... in particular a value array corrupted in any way `sbdf_va_read` reports with `s`, in any
+    column of the slice after any number of intact columns: unknown encoding or type id, negative
+    element count, negative string length, negative bit-array row count, … — every decision
+    theorem above of the form `FailsWith (readVA c) bad s` lifts to the whole file. -/
+theorem corrupt_value_array_in_file (c : Cfg) (p : PhysTM) (cols : List Md) (slices : List (List CS))
+    (hp : p.Ok c cols) (hn : ∀ x ∈ slices, x.length = p.cols.length) (hf : ∀ x ∈ slices, TSFits c x)
+    (good : List CS) (hg : ∀ x ∈ good, x.Fits c) (k : Nat) (hk : p.cols.length = good.length + (k + 1))
+    (hcap : ((good.length + (k + 1) : Nat) : Int) * 8 ≤ c.cap) (hmax : ((good.length + (k + 1) : Nat) : Int) ≤ INT_MAX)
+    (bad : Bytes) (s : Status) (hbad : FailsWith (readVA c) bad s)
+    (rest : Bytes) (fuel : Nat) (hfuel : slices.length < fuel) :
+    readFileF c none fuel (header ++ Spec.tm c p ++ (slices.flatMap (Spec.ts c) ++
+        (sec 3 ++ le c ((good.length + (k + 1) : Nat) : Int) ++ (good.flatMap (Spec.cs c) ++ (sec 4 ++ bad)))) ++ rest).toArray =
+      ⟨.ok (1, 0), some (.ok (C04.logicalTM p cols)), slices.map (fun x => ⟨maskFrom none 0 x⟩),
+       some (.failed (.st s))⟩ := by
+  have h := ts_fails_with_cs c good hg k _ s (cs_fails_with_va c bad s hbad) hcap hmax
+  exact file_then_failure c p cols slices hp hn hf _ s (by rw [hk]; exact h) rest fuel hfuel
+
+/-- value arrays: a plain array with a negative element count -/
+theorem va_negative_count (c : Cfg) (vt : UInt8) (count : Int) (h32 : isInt32 count) (h : count < 0) :
+    FailsWith (readVA c) ([1, vt] ++ le c count) .invalidSize := by
+  unfold readVA; simp only [P.bind_def]
+  refine FailsWith.after (bs := [1]) (cs := [vt] ++ le c count) (reads_int8_lit 1) ?_
+  refine FailsWith.after (bs := [vt]) (cs := le c count) (reads_int8_lit vt) ?_
+  simp only [show (1 : UInt8).toNat = 1 from rfl, if_true]
+  exact FailsWith.first (negative_array_count c vt.toNat count h32 h)
+
+/-- value arrays: a plain array of an unknown type id -/
+theorem va_unknown_type (c : Cfg) (vt : UInt8) (count : Int) (h32 : isInt32 count) (h0 : 0 ≤ count)
+    (harr : isArr vt.toNat = false) (hunk : ∀ n, fixedSize vt.toNat ≠ .ok n) :
+    FailsWith (readVA c) ([1, vt] ++ le c count) .unknownTypeid := by
+  unfold readVA; simp only [P.bind_def]
+  refine FailsWith.after (bs := [1]) (cs := [vt] ++ le c count) (reads_int8_lit 1) ?_
+  refine FailsWith.after (bs := [vt]) (cs := le c count) (reads_int8_lit vt) ?_
+  simp only [show (1 : UInt8).toNat = 1 from rfl, if_true]
+  refine FailsWith.first ?_
+  unfold readObjArr; simp only [P.bind_def]
+  exact FailsWith.after_nil (reads_int32 c count h32) (unknown_type_id c vt.toNat count true h0 harr hunk)
+
+/-- value arrays: a bit array with a negative row count (repair F20) -/
+theorem va_negative_bit_rows (c : Cfg) (vt : UInt8) (rows : Int) (h32 : isInt32 rows) (h : rows < 0) :
+    FailsWith (readVA c) ([3, vt] ++ le c rows) .invalidSize := by
+  unfold readVA; simp only [P.bind_def]
+  refine FailsWith.after (bs := [3]) (cs := [vt] ++ le c rows) (reads_int8_lit 3) ?_
+  refine FailsWith.after (bs := [vt]) (cs := le c rows) (reads_int8_lit vt) ?_
+  simp only [show (3 : UInt8).toNat = 3 from rfl, show ¬ (3 = 1) by omega, show ¬ (3 = 2) by omega, if_false, if_true]
+  refine FailsWith.after_nil (reads_int32 c rows h32) ?_
+  simp only [h, if_true]; exact FailsWith.fail _
+
+/-- instances: the three above anywhere in the slices of an intact file — the first non-OK status
+    of the caller's loop is the matching one -/
+theorem negative_counts_in_file (c : Cfg) (p : PhysTM) (cols : List Md) (slices : List (List CS))
+    (hp : p.Ok c cols) (hn : ∀ x ∈ slices, x.length = p.cols.length) (hf : ∀ x ∈ slices, TSFits c x)
+    (good : List CS) (hg : ∀ x ∈ good, x.Fits c) (k : Nat) (hk : p.cols.length = good.length + (k + 1))
+    (hcap : ((good.length + (k + 1) : Nat) : Int) * 8 ≤ c.cap) (hmax : ((good.length + (k + 1) : Nat) : Int) ≤ INT_MAX)
+    (vt : UInt8) (v : Int) (h32 : isInt32 v) (h : v < 0) (rest : Bytes) (fuel : Nat) (hfuel : slices.length < fuel) :
+    (readFileF c none fuel (header ++ Spec.tm c p ++ (slices.flatMap (Spec.ts c) ++
+        (sec 3 ++ le c ((good.length + (k + 1) : Nat) : Int) ++ (good.flatMap (Spec.cs c) ++ (sec 4 ++ ([1, vt] ++ le c v))))) ++ rest).toArray).last =
+      some (.failed (.st .invalidSize)) ∧
+    (readFileF c none fuel (header ++ Spec.tm c p ++ (slices.flatMap (Spec.ts c) ++
+        (sec 3 ++ le c ((good.length + (k + 1) : Nat) : Int) ++ (good.flatMap (Spec.cs c) ++ (sec 4 ++ ([3, vt] ++ le c v))))) ++ rest).toArray).last =
+      some (.failed (.st .invalidSize)) := by
+  constructor
+  · rw [corrupt_value_array_in_file c p cols slices hp hn hf good hg k hk hcap hmax _ _ (va_negative_count c vt v h32 h) rest fuel hfuel]
+  · rw [corrupt_value_array_in_file c p cols slices hp hn hf good hg k hk hcap hmax _ _ (va_negative_bit_rows c vt v h32 h) rest fuel hfuel]
+
+theorem unknown_type_in_file (c : Cfg) (p : PhysTM) (cols : List Md) (slices : List (List CS))
+    (hp : p.Ok c cols) (hn : ∀ x ∈ slices, x.length = p.cols.length) (hf : ∀ x ∈ slices, TSFits c x)
+    (good : List CS) (hg : ∀ x ∈ good, x.Fits c) (k : Nat) (hk : p.cols.length = good.length + (k + 1))
+    (hcap : ((good.length + (k + 1) : Nat) : Int) * 8 ≤ c.cap) (hmax : ((good.length + (k + 1) : Nat) : Int) ≤ INT_MAX)
+    (vt : UInt8) (count : Int) (h32 : isInt32 count) (h0 : 0 ≤ count)
+    (harr : isArr vt.toNat = false) (hunk : ∀ n, fixedSize vt.toNat ≠ .ok n)
+    (rest : Bytes) (fuel : Nat) (hfuel : slices.length < fuel) :
+    (readFileF c none fuel (header ++ Spec.tm c p ++ (slices.flatMap (Spec.ts c) ++
+        (sec 3 ++ le c ((good.length + (k + 1) : Nat) : Int) ++ (good.flatMap (Spec.cs c) ++ (sec 4 ++ ([1, vt] ++ le c count))))) ++ rest).toArray).last =
+      some (.failed (.st .unknownTypeid)) := by
+  rw [corrupt_value_array_in_file c p cols slices hp hn hf good hg k hk hcap hmax _ _ (va_unknown_type c vt count h32 h0 harr hunk) rest fuel hfuel]
+
+/-- non-vacuity: type id 11 is neither an array type nor of a known size -/
+example : isArr (11 : UInt8).toNat = false ∧ ∀ n, fixedSize (11 : UInt8).toNat ≠ .ok n := by
+  refine ⟨by decide, fun n => ?_⟩
+  simp [fixedSize, unpackedSize]
+
+/-- instance: an unknown encoding id anywhere in the slices of an intact file -/
+theorem unknown_encoding_in_file (c : Cfg) (p : PhysTM) (cols : List Md) (slices : List (List CS))
+    (hp : p.Ok c cols) (hn : ∀ x ∈ slices, x.length = p.cols.length) (hf : ∀ x ∈ slices, TSFits c x)
+    (good : List CS) (hg : ∀ x ∈ good, x.Fits c) (k : Nat) (hk : p.cols.length = good.length + (k + 1))
+    (hcap : ((good.length + (k + 1) : Nat) : Int) * 8 ≤ c.cap) (hmax : ((good.length + (k + 1) : Nat) : Int) ≤ INT_MAX)
+    (e vt : UInt8) (h1 : e ≠ 1) (h2 : e ≠ 2) (h3 : e ≠ 3) (rest : Bytes) (fuel : Nat) (hfuel : slices.length < fuel) :
+    (readFileF c none fuel (header ++ Spec.tm c p ++ (slices.flatMap (Spec.ts c) ++
+        (sec 3 ++ le c ((good.length + (k + 1) : Nat) : Int) ++ (good.flatMap (Spec.cs c) ++ (sec 4 ++ [e, vt])))) ++ rest).toArray).last =
+      some (.failed (.st .unknownEncoding)) := by
+  rw [corrupt_value_array_in_file c p cols slices hp hn hf good hg k hk hcap hmax _ _ (unknown_encoding_id c e vt h1 h2 h3).1 rest fuel hfuel]
+
 /-! ### every status the library can return has its own textual description -/
 
 theorem returnable_have_text : ∀ r ∈ Gen.returnable, Gen.errStr r.2 ≠ Gen.errDefault := by decide
